@@ -239,11 +239,11 @@ fn vfmt_disp<W: VWrite, T: VDisp + ?Sized>(w: &mut W, x: &T) ensures final(w).tr
     u.emit("} // verus!\nfn main() {}\n")
 
 
-def simple(u, path, block, name, events, rules, vpath, key=None, requires="", comment="", pre="", rename=None, extra_proofs=None, loops=None, t0_extra=""):
+def simple(u, path, block, name, events, rules, vpath, key=None, requires="", comment="", pre="", rename=None, extra_proofs=None, loops=None, t0_extra="", props=None):
     """a renderer without loops (or with `loops`): its trace is the old one plus `events` (a spec expression over its parameters)"""
     pr = {"body-start": "let ghost t0 = sql.tr();" + t0_extra, "body-end": "proof { %s assert(sql.tr() =~= t0 + (%s)); }" % (pre, events)}
     pr.update(extra_proofs or {})
-    u.fn(path, block, name, props=P, key=key or "%s::%s" % (vpath.split("::")[0], name), vpath=vpath, rules=list(rules) + [r_unit_tail], rename=rename, loops=loops,
+    u.fn(path, block, name, props=props or P, key=key or "%s::%s" % (vpath.split("::")[0], name), vpath=vpath, rules=list(rules) + [r_unit_tail], rename=rename, loops=loops,
          spec=(("requires %s,\n" % requires) if requires else "") + "ensures\n" + ("    // %s\n" % comment if comment else "") + "    final(sql).tr() == old(sql).tr() + (%s)," % events,
          proofs=pr)
 
@@ -389,7 +389,7 @@ def mysql_table(u):
            + "    // #[derive(Clone)] (trusted): `.to_owned()` of a TableForeignKey is a structural copy\n    #[verifier::external_body]\n    fn vclone_fk(x: &TableForeignKey) -> (r: TableForeignKey) ensures r == *x { unimplemented!() }\n",
            "schema::abstract-sub-renderers(mysql table)", props=P)
     simple(u, MT, B, "prepare_table_opt", "tableopts_events_mysql(*create)", [r_dynw, r_fmt], "MysqlQueryBuilder::prepare_table_opt", key="MysqlQueryBuilder::prepare_table_opt",
-           comment="COMMENT '<escaped text>' (one string literal, C03), then the options")
+           comment="COMMENT '<escaped text>' (one string literal, C03), then the options", props=P + ["C03"])
     simple(u, MT, B, "prepare_column_def", "coldef_events_mysql(*column_def)", [r_dynw, r_iden, r_semi, r_fmt, make_r_sub("R-forghost", r"for column_spec in column_def\.spec\.iter\(\)", "for column_spec in it1: column_def.spec.iter()")],
            "MysqlQueryBuilder::prepare_column_def_impl", key="MysqlQueryBuilder::prepare_column_def", rename="prepare_column_def_impl", comment="name, ONE type, then each specification once, in declaration order",
            loops=["invariant it1.index@ <= column_def.spec@.len(), sql.tr() == ts + l_specs(column_def.spec@.subrange(0, it1.index@ as int)),"],
